@@ -7,3 +7,4 @@ for i in $(seq -w 1 20); do
   echo "C$i rc=$RC ${E}s $(echo "$OUT" | tail -1 | cut -c1-150)"
   [ $RC != 0 ] && echo "$OUT" | grep -m3 "oracle=\|HARNESS" | cut -c1-300
 done
+exit 0
